@@ -31,6 +31,7 @@ import typing
 import re
 import logging
 from enum import Enum
+from fractions import Fraction
 
 from ttconv import model
 from ttconv import style_properties as styles
@@ -419,10 +420,13 @@ def vtt_timestamp_to_secs(vtt_ts: str):
   m = _VTT_TS_RE.fullmatch(vtt_ts)
 
   if m:
-    return int(m.group('hh') if m.group('hh') is not None else 0) * 3600 + \
-      int(m.group('mm')) * 60 + \
-      int(m.group('ss')) + \
-      int(m.group('ms')) / 1000
+    return Fraction(
+      (int(m.group('hh') if m.group('hh') is not None else 0) * 3600 +
+       int(m.group('mm')) * 60 +
+       int(m.group('ss'))) * 1000 +
+      int(m.group('ms')),
+      1000
+    )
 
   return None
 
